@@ -54,7 +54,7 @@ class ParserConfig(Config):
     namechars: str | None = None
     nameguard: bool | None = None  # implied by namechars
     whitespace: str | UndefinedType | None = Undefined
-    parseinfo: bool = False
+    parseinfo: bool | None = None
     heart: Heart | None = None
     heart_bps: float = DEFAULT_HEART_BPS
 
